@@ -403,7 +403,7 @@ def r3_loop(ctx, F):
     cm = cm[0]
     a = v.call_args(cm)
     tup = R(a[1], b, v).replace(NAME, "NAME").replace(REC, "REC")
-    want = ("(DirEntry{ino: REC.d_ino, offset: REC.d_off, type_: From::from(REC.d_ty), name: CStr::to_bytes(bytes_to_cstr(NAME)?)}, "
+    want = ("(DirEntry{ino: REC.d_ino, offset: REC.d_off, type_: REC.d_ty, name: CStr::to_bytes(bytes_to_cstr(NAME)?)}, "
             "BorrowedFd::as_raw_fd(HandleData::borrow_fd(PassthroughFs::get_dirdata(self, handle, inode, O_RDONLY)?)))")
     ctx.check(rule, "entry-fields", tup == want,
               "do_readdir hands the consumer `%s`; required `%s` (REC = the record at the walk position, NAME = its name bytes)" % (tup[:500], want), loc=cm.loc(), detail=tup[:200])
